@@ -216,7 +216,8 @@ def exp_cases(chk, n):
     import jax.numpy as jnp, numpy as onp
     from rex import base as rb
     r = chk.rnd
-    xs = [Fraction(r.randint(-64, 64), 8) for _ in range(n)]
+    # log-space parameters over the whole range where exp(x) is a normal float32 (about -87 .. 88), not only near 0
+    xs = [Fraction(r.randint(-64, 64), 8) for _ in range(n // 2)] + [Fraction(r.randint(-680, 680), 8) for _ in range(n - n // 2)]
     T = rb.Exponential.init()
     tr = {"a": jnp.array([float(x) for x in xs], dtype=jnp.float32), "b": None}
     a = T.apply(tr); back = T.inv(a)
